@@ -197,6 +197,33 @@ def gen_dynamic_params_buffer(rng, mods):
     return b.text, list(b.probes)
 
 
+def gen_syspath_buffer(rng, files):
+    """a project module that modifies sys.path (statically visible), another module that is
+    only importable through the added directory: what one module's sys.path edits do must not
+    depend on which query followed which import first"""
+    files['shim.py'] = ('import sys\nsys.path.insert(0, %r)\nimport vmod2\n\n\ndef make():\n    return vmod2.Thing()\n'
+                        % rng.choice(['vendor', './vendor']))
+    files['vendor/vmod.py'] = 'class Gadget:\n    def turn(self):\n        return 1\n\n\ndef fallback():\n    return Gadget()\n'
+    files['vendor/vmod2.py'] = 'class Thing:\n    def spin(self):\n        return "s"\n'
+    b = world.Buffer()
+    b.add('import shim')
+    b.add('import vmod')
+    b.add('import vmod2 as direct2')
+    b.add('')
+    b.add('g = vmod.Gadget()', [('infer', 'vmod.Gad', None), ('goto', 'vmod.Gad', {'follow_imports': True})])
+    b.add('g.turn', [('complete', 'g.', None)])
+    n0 = len(b.probes)
+    b.add('x = shim.make()', [('infer', 'x', None)])
+    b.add('x.spin', [('complete', 'x.', None), ('infer', 'x.sp', None)])
+    b.add('direct2.Thing', [('infer', 'direct2.Th', None)])
+    b.add('shim.vmod2.Thing', [('goto', 'vmod2.Th', {'follow_imports': True})])
+    for p in b.probes[n0:]:
+        # these depend on the module name vmod2, which is imported from two modules with
+        # different effective search paths (listed finding: module cache keyed by name only)
+        p['tag'] = 'modcache'
+    return b.text, list(b.probes)
+
+
 def gen_case(seed, tier, i):
     rng = driver.rng_for(seed, 'C16', tier, 'case', i)
     w = world.gen_world(rng, n_top=rng.randint(2, 3), with_pkg=rng.random() < 0.3, with_ns=False)
@@ -207,6 +234,10 @@ def gen_case(seed, tier, i):
         text, probes = gen_many_calls_buffer(rng, list(w.mods))
     elif family < 0.35:
         text, probes = gen_dynamic_params_buffer(rng, list(w.mods))
+    elif family < 0.45:
+        extra_files = {}
+        text, probes = gen_syspath_buffer(rng, extra_files)
+        init += [{'op': 'fs', 'kind': 'write', 'path': p, 'content': c, 'mt': MT0} for p, c in sorted(extra_files.items())]
     elif family < 0.8:
         text, probes = gen_multi_buffer(rng, list(w.mods))
     else:
@@ -230,7 +261,7 @@ def gen_case(seed, tier, i):
     rng.shuffle(idxs)
     chosen = idxs[:min(8, len(idxs))]
     sched = []
-    if family < 0.35:
+    if family < 0.45:
         sched = list(chosen)        # every probe once (in shuffled order), then repetitions
     for _ in range(rng.randint(8, 16 if tier == 'quick' else 24)):
         sched.append(rng.choice(chosen))
@@ -428,7 +459,7 @@ class C16(base.Engine):
         stats['digest'] = driver.events_digest([{'d': digests}])
         stats['distinct_process_outputs'] = len(set(digests))
         if problems:
-            problems.sort(key=lambda p: p[0].endswith('representative_of_builtin_instance') or p[0].endswith('@mutrec'))
+            problems.sort(key=lambda p: p[0].endswith('representative_of_builtin_instance') or p[0].endswith('@mutrec') or p[0].endswith('@modcache'))
             return {'verdict': 'violation', 'sig': problems[0][0],
                     'detail': {'problems': [[s, d] for s, d in problems[:4]], 'n': len(problems),
                                'all_sigs': sorted({s for s, _ in problems})}, 'stats': stats}
